@@ -260,4 +260,44 @@ Proof.
   eapply read_targets_origin; [exact R|exact Rt| |exact E]. lia.
 Qed.
 
+(* ---- deliveries ---- *)
+
+(* the @print directives of a definition: physical line and text *)
+Fixpoint print_dirs (n : Z) (ls : list (line T V Z)) : list (Z * text) :=
+  match ls with
+  | [] => []
+  | l :: r => (match own_print T V Z l with Some sh => [(n, sh)] | None => [] end) ++ print_dirs (n + 1 + l_extra T V Z l) r
+  end.
+
+Definition deliver (bound : text) (n : Z) (s : text) (w : world) : world := add_print (bound, n, s) w.
+
+Lemma emit_all_prints : forall bound ls n w,
+  prints (emit_all T V Z world (deliver bound) n ls w) = prints w ++ map (fun ns => (bound, fst ns, snd ns)) (print_dirs n ls)
+  /\ cached (emit_all T V Z world (deliver bound) n ls w) = cached w /\ pool (emit_all T V Z world (deliver bound) n ls w) = pool w
+  /\ wanted (emit_all T V Z world (deliver bound) n ls w) = wanted w.
+Proof.
+  intros bound. induction ls as [|l r IH]; intros n w; cbn.
+  - rewrite app_nil_r. auto.
+  - destruct (own_print T V Z l) as [sh|]; cbn.
+    + destruct (IH (n + 1 + l_extra T V Z l) (deliver bound n sh w)) as (H1 & H2 & H3 & H4).
+      rewrite H1, H2, H3, H4. cbn. rewrite <- app_assoc. auto.
+    + apply IH.
+Qed.
+
+(* C17_print_once_here, partial: a definition without dependencies that is read as a target gets each of its directives
+   delivered exactly once, in order, with its own path and physical line *)
+Theorem leaf_target_prints : forall fuel fs lk t f w w',
+  find_file fs t = Some f -> f_syntax T V f = None -> f_lines T V f <> [] -> Forall (no_reads T V Z) (f_lines T V f) ->
+  memz t (pool w) = false ->
+  read_targets (S fuel) fs lk [t] w = (w', None) ->
+  prints w' = prints w ++ map (fun ns => (f_path T V f, fst ns, snd ns)) (print_dirs 1 (f_lines T V f)).
+Proof.
+  intros fuel fs lk t f w w' Ef Es NE NR Hp. cbn. rewrite Hp, Ef, Es.
+  match goal with |- context [run T V Z world ?d ?m (f_lines T V f) w] => set (dep := d); set (em := m) end.
+  destruct (run T V Z world dep em (f_lines T V f) w) as [[m w1]|e0 w1] eqn:Er; [|discriminate].
+  intros H; inversion H; subst. clear H.
+  pose proof (prints_of_leaf T V Z world dep em _ _ _ _ NE NR Er) as Hw. subst w1.
+  unfold settle. cbn [prints].
+  destruct (emit_all_prints (f_path T V f) (f_lines T V f) 1 w) as (H1 & _). exact H1.
+Qed.
 End ReaderProofs.
